@@ -784,6 +784,10 @@ func runREC(w *World, r *Result, only func(rel string) bool) int {
 			continue
 		}
 		// 4. type-argument descent
+		if g.typeArgDescent(scc) {
+			r.ok("REC-typeargs", scc[0].name, "SCC{"+label+"}", pos, "every recursive call passes an element X.TypeArgs().At(i) of the type-argument list of the *types.Named it was called with: an instantiated type is a finite term (a type cannot be its own type argument), so the descent is structural", true)
+			continue
+		}
 		if why, ok := justifiedREC[label]; ok {
 			r.justified("REC-table", scc[0].name, "SCC{"+label+"}", pos, why)
 			continue
@@ -797,6 +801,133 @@ func runREC(w *World, r *Result, only func(rel string) bool) int {
 	return count
 }
 
-var justifiedREC = map[string]string{
-	"generator/go/randdata.functionIDBasicOrNamed": "recursion over the type-argument list of an instantiated *types.Named: instantiations are finite trees (a type cannot be its own type argument)",
+var justifiedREC = map[string]string{}
+
+// typeArgDescent: a single self-recursive function each of whose recursive calls passes L.At(i) -- or the
+// variable a type switch binds from L.At(i) -- where L is X.TypeArgs() of a value X derived from a parameter
+// (the parameter itself, or the variable a type switch binds from it).
+func (g *recGraph) typeArgDescent(scc []*recNode) bool {
+	if len(scc) != 1 || scc[0].lit != nil {
+		return false
+	}
+	n := scc[0]
+	info := n.fi.Pkg.TypesInfo
+	calls := n.out[n]
+	if len(calls) == 0 {
+		return false
+	}
+	// variables holding a TypeArgs() list of a parameter-derived value
+	paramDerived := func(e ast.Expr) bool {
+		id := rootIdent(e)
+		if id == nil {
+			return false
+		}
+		obj := objOf(info, id)
+		if isParamExpr(n, info, id) {
+			return true
+		}
+		// bound by `switch v := param.(type)`
+		found := false
+		ast.Inspect(n.body, func(x ast.Node) bool {
+			ts, ok := x.(*ast.TypeSwitchStmt)
+			if !ok {
+				return true
+			}
+			as, ok := ts.Assign.(*ast.AssignStmt)
+			if !ok || len(as.Rhs) != 1 {
+				return true
+			}
+			ta, ok := as.Rhs[0].(*ast.TypeAssertExpr)
+			if !ok || !isParamExpr(n, info, ta.X) {
+				return true
+			}
+			for _, cl := range ts.Body.List {
+				if info.Implicits[cl] == obj {
+					found = true
+				}
+			}
+			return true
+		})
+		return found
+	}
+	isTypeArgsOf := func(e ast.Expr) bool {
+		c, ok := ast.Unparen(e).(*ast.CallExpr)
+		if !ok {
+			return false
+		}
+		fn := calleeOf(info, c)
+		if fn == nil || fn.FullName() != "(*go/types.Named).TypeArgs" {
+			return false
+		}
+		sel, ok := c.Fun.(*ast.SelectorExpr)
+		return ok && paramDerived(sel.X)
+	}
+	lists := map[types.Object]bool{}
+	ast.Inspect(n.body, func(x ast.Node) bool {
+		as, ok := x.(*ast.AssignStmt)
+		if !ok || len(as.Lhs) != 1 || len(as.Rhs) != 1 {
+			return true
+		}
+		if isTypeArgsOf(as.Rhs[0]) {
+			if id := identOf(as.Lhs[0]); id != nil {
+				lists[objOf(info, id)] = true
+			}
+		}
+		return true
+	})
+	isElem := func(e ast.Expr) bool {
+		c, ok := ast.Unparen(e).(*ast.CallExpr)
+		if !ok {
+			return false
+		}
+		fn := calleeOf(info, c)
+		if fn == nil || fn.FullName() != "(*go/types.TypeList).At" {
+			return false
+		}
+		sel, ok := c.Fun.(*ast.SelectorExpr)
+		if !ok {
+			return false
+		}
+		if id := identOf(sel.X); id != nil && lists[objOf(info, id)] {
+			return true
+		}
+		return isTypeArgsOf(sel.X)
+	}
+	// variables bound by a type switch over an element
+	elemVars := map[types.Object]bool{}
+	ast.Inspect(n.body, func(x ast.Node) bool {
+		ts, ok := x.(*ast.TypeSwitchStmt)
+		if !ok {
+			return true
+		}
+		as, ok := ts.Assign.(*ast.AssignStmt)
+		if !ok || len(as.Rhs) != 1 {
+			return true
+		}
+		ta, ok := as.Rhs[0].(*ast.TypeAssertExpr)
+		if !ok || !isElem(ta.X) {
+			return true
+		}
+		for _, cl := range ts.Body.List {
+			if o := info.Implicits[cl]; o != nil {
+				elemVars[o] = true
+			}
+		}
+		return true
+	})
+	for _, call := range calls {
+		okc := false
+		for _, a := range call.Args {
+			if isElem(a) {
+				okc = true
+			}
+			if id := identOf(a); id != nil && elemVars[objOf(info, id)] {
+				okc = true
+			}
+		}
+		if !okc {
+			return false
+		}
+	}
+	return true
 }
